@@ -7,7 +7,10 @@ import json, os, shutil, subprocess, sys, tempfile, time
 src, sid, prop = sys.argv[1], sys.argv[2], sys.argv[3]
 env = dict(os.environ, GOFLAGS="-mod=mod", GOPROXY="off", GOSUMDB="off", GOTOOLCHAIN="local")
 env.pop("GOWORK", None)
-def run(cmd, cwd, timeout=300):
+RACE = ["-race"] if os.environ.get("INGEST_RACE") else []
+def run(cmd, cwd, timeout=600):
+    if RACE and cmd[:2] == ["go", "test"]:
+        cmd = cmd[:2] + RACE + cmd[2:]
     return subprocess.run(cmd, cwd=cwd, env=env, capture_output=True, text=True, timeout=timeout)
 d = tempfile.mkdtemp(prefix="ing_", dir="/tmp")
 meta = {"id": sid, "property": prop, "ingested_at": time.strftime("%Y-%m-%dT%H:%M:%SZ", time.gmtime())}
